@@ -186,7 +186,7 @@ Fam(c) ==
     [] c = "t3" -> Family(All4, {FALSE}, 3 .. 13, CoreKinds \cup DotKinds, FALSE, Seq2(Small, Small))
     [] c = "t4" -> Family({"std", "x35"}, {FALSE}, {NoLimit}, {"builtin", "exec"}, FALSE,
                           Seq3(Small, Small, Small))
-    [] c = "tf" -> FaultFamily({"std", "x35", "int"}, BOOLEAN, AllKinds,
+    [] c = "tf" -> FaultFamily({"std", "x35", "int"}, {FALSE}, AllKinds,
                                FaultLists \cup Seq2(Small, HereSmall) \cup Seq2(HereSmall, Small),
                                Faults \cup {[call |-> cl, n |-> 3, errno |-> "EIO"] : cl \in Calls})
     [] c = "t5" -> Family({"std"}, {FALSE}, {12}, {"builtin"}, FALSE, Seq3(Small, Small, Small))
